@@ -7,7 +7,7 @@ import random
 from . import gen
 from .common import Report, run_driver_parallel, seed, log, load_findings, LEAN, lake_build, audit_names
 from .impl import run_cases
-from .frontend import gen_desc, desc_toks, render
+from .frontend import gen_desc, desc_toks, render, split_desc, exp_tree, Desc
 
 
 def codes(s):
@@ -130,7 +130,23 @@ def w_reflect(case):
     from fcp.reflection import get_reflection_schema
     from fcp import serde
 
-    r = get_fcp_from_string(case["text"], Logger({}))
+    if case.get("files"):
+        # the schema spread over module files: the record describes the merged schema
+        import shutil
+        import tempfile
+        from fcp.parser import get_fcp
+        td = tempfile.mkdtemp(prefix="fcprefl_")
+        try:
+            for rel, text in case["files"].items():
+                fp = os.path.join(td, rel)
+                os.makedirs(os.path.dirname(fp), exist_ok=True)
+                with open(fp, "w", newline="") as f:
+                    f.write(text)
+            r = get_fcp(os.path.join(td, "main.fcp"), Logger({}))
+        finally:
+            shutil.rmtree(td, ignore_errors=True)
+    else:
+        r = get_fcp_from_string(case["text"], Logger({}))
     if r.is_err():
         return {"rejected": repr(r.err())[:200]}
     fcp = r.unwrap()
@@ -149,6 +165,14 @@ def w_reflect(case):
         out["roundtrip"] = (d == rec)
         if d != rec:
             out["decoded"] = model_record(d)
+            # the recorded decoder defect (C01 signed-min) seen through the record: an i32 enumerator -2^31 comes back as +2^31
+            import copy
+            rec2 = copy.deepcopy(rec)
+            for e in rec2["enums"]:
+                for x in e["enumeration"]:
+                    if x["value"] == -2 ** 31:
+                        x["value"] = 2 ** 31
+            out["roundtrip_but_signed_min"] = (d == rec2)
     except Exception as e:
         out["serde_raised"] = {"exc": type(e).__name__, "msg": str(e)[:150]}
     if case.get("via_cli") and "bytes" in out:
@@ -244,6 +268,34 @@ def in_model_domain(text_desc):
     return True
 
 
+def listing_declared(d):
+    """what the source declares, from the generator's description (not from the parsed tree): every struct with its
+    fields, every enumerator, every binding (default ones included) and every service; as sorted lists, so that the
+    order in which module contents are merged does not matter"""
+    t = exp_tree(d)
+    return {
+        "structs": sorted([s["name"], [[f["name"], f["field_id"]] for f in s["fields"]]] for s in t["structs"]),
+        "enums": sorted([e["name"], [[x["name"], x["value"]] for x in e["enumeration"]]] for e in t["enums"]),
+        "impls": sorted([i["name"], i["protocol"], i["type"], [k for k, _ in i["fields"]], [sb["name"] for sb in i["signals"]]]
+                        for i in t["impls"]),
+        "services": sorted([sv["name"], sv["id"], [[m["name"], m["id"], m["input"], m["output"]] for m in sv["methods"]]]
+                           for sv in t["services"]),
+    }
+
+
+def listing_record(rs):
+    def n(c):
+        return "".join(chr(x) for x in c)
+    return {
+        "structs": sorted([n(s["name"]), [[n(f["name"]), f["id"]] for f in s["fields"]]] for s in rs["structs"]),
+        "enums": sorted([n(e["name"]), [[n(x["name"]), x["value"]] for x in e["items"]]] for e in rs["enums"]),
+        "impls": sorted([n(i["name"]), n(i["protocol"]), n(i["type"]), [n(k) for k, _ in i["fields"]], [n(sb["name"]) for sb in i["signals"]]]
+                        for i in rs["impls"]),
+        "services": sorted([n(sv["name"]), sv["id"], [[n(m["name"]), m["id"], n(m["input"]), n(m["output"])] for m in sv["methods"]]]
+                           for sv in rs["services"]),
+    }
+
+
 def run(prop, tier, replay=None):
     rep = Report(prop, tier)
     rng = random.Random(seed() * 2750159 + 12)
@@ -270,21 +322,43 @@ def run(prop, tier, replay=None):
     for _ in range(n):
         d = gen_desc(rng, max_decls=7)
         # model domain of `str(value)`: strings inside arrays are plain words
+        if rng.random() < 0.25:
+            # the same schema spread over module files (services, bindings, enums in imported modules)
+            root_decls, mods = split_desc(rng, d)
+            rd = Desc()
+            rd.decls = root_decls
+            files = {"main.fcp": render(rng, desc_toks(rng, rd), "canon")}
+            for rel, sub in mods.items():
+                files[rel] = render(rng, desc_toks(rng, sub), rng.choice(["canon", "wild"]))
+            files = {rel: (t if t.isascii() else t.encode("ascii", "replace").decode()) for rel, t in files.items()}
+            cases.append({"text": "".join(f"// file {rel}\n{t}" for rel, t in sorted(files.items())), "files": files,
+                          "declared": listing_declared(d)})
+            continue
         text = render(rng, desc_toks(rng, d), rng.choice(["canon", "wild"]))
         if not text.isascii():
             text = text.encode("ascii", "replace").decode()  # the wire format carries 7-bit strings
-        cases.append({"text": text, "via_cli": rng.random() < 0.25})
+        cases.append({"text": text, "via_cli": rng.random() < 0.25, "declared": listing_declared(d)})
     cases.append({"text": 'version: "3"\nstruct A {\n    x @ -1: u8,\n}\n'})  # recorded finding: negative field id
+    cases.append({"text": 'version: "3"\nenum E {\n    A = -2147483648,\n}\nstruct S {\n    e @ 0: E,\n}\n'})  # recorded: signed-min
+    # recorded finding: an enumerator outside the i32 of `Enumeration.value`
+    cases.append({"text": 'version: "3"\nenum E {\n    A = 0,\n    B = 4294967301,\n}\nstruct S {\n    e @ 0: E,\n}\n'})
     ires = run_cases("harness.reflection", "w_reflect", cases, timeout_s=60)
     lidx = [k for k, r in enumerate(ires) if "ok" in r and "rschema" in r["ok"]]
     mres = dict(zip(lidx, run_driver_parallel([{"op": "reflect", "schema": ires[k]["ok"]["rschema"]} for k in lidx])))
     neg_listed = any(f.get("property") == "C12" and f.get("id") == "negative-field-id" and f.get("status") == "open"
+                     for f in load_findings())
+    min_listed = any(f.get("property") == "C12" and f.get("id") == "signed-min" and f.get("status") == "open"
+                     for f in load_findings())
+    big_listed = any(f.get("property") == "C12" and f.get("id") == "enumerator-beyond-i32" and f.get("status") == "open"
                      for f in load_findings())
     for k, (c, r) in enumerate(zip(cases, ires)):
         text = c["text"]
         rep.count(text)
         rep.sample({"text": text}, limit=3)
         base = {"text": text}
+        if c.get("files"):
+            base["files"] = c["files"]
+        rep.hist("source", "module files" if c.get("files") else "one file")
         if "ok" not in r:
             rep.violation(dict(base, kind="harness", observed=r), no_input=True)
             continue
@@ -301,6 +375,15 @@ def run(prop, tier, replay=None):
             rep.violation(dict(base, kind="reflection-raised", observed=o["reflection_raised"],
                                what="reflection() raised on an accepted schema"))
             continue
+        # complete: everything the source declares is listed (the description is the generator's, not the parser's)
+        if "declared" in c:
+            got = listing_record(o["rschema"])
+            if got != c["declared"]:
+                rep.cov["disagreements_checked"] += 1
+                kind = next(k for k in got if got[k] != c["declared"][k])
+                rep.violation(dict(base, kind="listing", category=kind, observed=got[kind], expected=c["declared"][kind],
+                                   what="the reflected schema does not list exactly the declarations of the source"))
+                continue
         # faithful: the record is what the model computes from the declared schema
         if o["record"] != m["record"]:
             rep.cov["disagreements_checked"] += 1
@@ -310,10 +393,15 @@ def run(prop, tier, replay=None):
         if not m["wf"]:
             # the record does not fit the reflection schema (e.g. a negative field id in `field_id: u32`)
             neg = any(f["id"] < 0 for s in o["rschema"]["structs"] for f in s["fields"])
+            big = any(not -2 ** 31 <= x["value"] < 2 ** 31 for e in o["rschema"]["enums"] for x in e["items"])
             rep.hist("outcome", "out-of-reflection-range")
             if neg and neg_listed and o.get("roundtrip") is False:
                 rep.known_finding("a negative field id (accepted by parser and verifier) does not survive the reflection "
                                   "round trip: field_id is u32 in reflection.fcp (witness: struct A { x @ -1: u8 })")
+            elif big and big_listed and o.get("roundtrip") is False:
+                rep.known_finding("an enumerator outside -2^31..2^31-1 (accepted by parser and verifier, encoded by the codecs) "
+                                  "does not survive the reflection round trip: Enumeration.value is i32 in reflection.fcp "
+                                  "(witness: enum E { A = 0, B = 4294967301 } reflects B as 5)")
             elif o.get("roundtrip") is not True:
                 rep.cov["disagreements_checked"] += 1
                 rep.violation(dict(base, kind="lossy", observed=o.get("serde_raised") or "decode != record",
@@ -327,6 +415,11 @@ def run(prop, tier, replay=None):
                 rep.violation(dict(base, kind="cli-encode", observed=o["cli"],
                                    what="`fcp encode` does not write the serialized reflection record of the schema"))
                 continue
+        if o.get("roundtrip") is False and o.get("roundtrip_but_signed_min") and min_listed:
+            rep.hist("outcome", "enumerator -2^31")
+            rep.known_finding("an enumerator equal to -2^31 comes back from the reflection round trip as +2^31: the Python decoder's "
+                              "signed-minimum defect (C01 signed-min) on Enumeration.value: i32 (witness: enum E { A = -2147483648 })")
+            continue
         if "serde_raised" in o or o.get("roundtrip") is not True:
             rep.cov["disagreements_checked"] += 1
             rep.violation(dict(base, kind="lossy", observed=o.get("serde_raised") or "decode != record",
